@@ -1,6 +1,8 @@
 /-
-C02: the interpreter of the regenerated `readRune` / `print` skeletons (Model/ParserReaderInterp.lean)
-computes the model functions `ParserIO.readRune` / `ParserIO.printLoop`, and the width of a Print.
+C02: when the interpreter of the `readRune` / `print` skeletons (Model/ParserReaderInterp.lean)
+computes the model functions `ParserIO.readRune` / `ParserIO.printLoop`, and the width of a Print —
+stated as semantic conditions on a body, not for a particular statement list (no hand copy of the
+skeletons: `Props/C02Text.lean` evaluates the interpreter on the regenerated bodies).
 -/
 import VaxisModel.Model.ParserReaderInterp
 import VaxisModel.Lemmas.ParserTextU
@@ -17,23 +19,13 @@ theorem readRuneB_cons (b : BR) (b0 : Nat) (t : List Nat) (h : b.rd.fill.buf = b
       ⟨b.rd.fill.consume (decodeRune (b0 :: t)).2, some b.rd.fill⟩) := by
   simp only [readRuneB, h]
 
-/-- `readRune`, statement by statement, is the model's `readRune`. -/
-theorem readRuneI_hand (rd : Rd) : readRuneI (handReadRune true) rd = some (readRune rd) := by
-  cases hb : rd.fill.buf with
-  | nil =>
-    simp only [readRuneI, handReadRune, interpRead, readRuneB_nil ⟨rd, none⟩ hb, readRune, hb]
-    simp [runeError]
-  | cons b0 brest =>
-    simp only [readRuneI, handReadRune, interpRead, readRuneB_cons ⟨rd, none⟩ b0 brest hb, readRune, hb,
-      fallback_flag, Bool.not_true, Bool.false_or, Bool.or_false]
-    by_cases hc : (decide ((decodeRune (b0 :: brest)).1 = runeError) && decide ((decodeRune (b0 :: brest)).2 = 1)) = true
-    · simp [hc, unreadRuneB, readByteB, hb]
-    · simp [hc]
+/-! ### print
 
-/-! ### print -/
-
-/-- The body of the look-ahead loop as the model transcribes it. -/
-def handLoop : List RStmt := [.peekRuneSized, .ifInvalidUnreadBreak, .writeNext, .firstCluster, .ifRestUnreadBreak]
+Nothing here mentions a particular statement list: the lemmas say what the three parts of a `print`
+body (statements before the loop, loop body, statements after it) have to *compute* for the whole
+interpretation to be the model's `printLoop`; `Props/C02Text.lean` proves these semantic conditions
+for the parts of the body regenerated from the source by evaluating the interpreter on them.  So a
+reordering of statements that the interpreter evaluates to the same function keeps the proofs. -/
 
 theorem fill_buf_ne (rd : Rd) (h : rd.buf.isEmpty = false) : rd.fill.buf ≠ [] := by
   obtain ⟨_, _, _, _, ⟨x, hx⟩, _⟩ := fill_spec rd
@@ -42,12 +34,40 @@ theorem fill_buf_ne (rd : Rd) (h : rd.buf.isEmpty = false) : rd.fill.buf ≠ [] 
   | nil => rw [hb] at h; simp at h
   | cons a t => simp
 
-/-- **The look-ahead loop, statement by statement, is `printLoop`**; and the width it leaves is the
+/-- What the statements in front of the loop must establish: builder and grapheme hold `r`, no
+    width yet, the reader untouched. -/
+def PreOk (pre : List RStmt) : Prop :=
+  ∀ (r : Rune) (rd : Rd), ∃ st1, prePhase r pre { b := ⟨rd, none⟩ } = some st1 ∧
+    st1.b.rd = rd ∧ st1.bldr = [r] ∧ st1.grapheme = [r] ∧ st1.w = 0
+
+/-- What one pass through the loop body must do, started with a non-empty (filled) buffer
+    `b0 :: t`, the builder holding the grapheme so far and that grapheme within the cluster length:
+    an invalid byte ahead ⇒ `break`, reader at the filled buffer, grapheme and width untouched;
+    the next rune would exceed the cluster ⇒ `break`, reader at the filled buffer, grapheme unchanged,
+    width = the one reported for it; else the rune is consumed and appended, no `break`. -/
+def LoopPass (cl : Nat) (wd : List Rune → Nat) (loop : List RStmt) : Prop :=
+  ∀ (st : PR) (b0 : Nat) (t : List Nat), st.b.rd.fill.buf = b0 :: t → st.bldr = st.grapheme →
+    st.grapheme.length ≤ cl →
+    ∃ st' brk, loopBody cl wd loop st = some (st', brk) ∧
+      if (decodeRune (b0 :: t)).1 = runeError ∧ (decodeRune (b0 :: t)).2 = 1 then
+        brk = true ∧ st'.grapheme = st.grapheme ∧ st'.b.rd = st.b.rd.fill ∧ st'.w = st.w
+      else if st.grapheme.length + 1 > cl then
+        brk = true ∧ st'.grapheme = st.grapheme ∧ st'.b.rd = st.b.rd.fill ∧ st'.w = wd st.grapheme
+      else
+        brk = false ∧ st'.grapheme = st.grapheme ++ [(decodeRune (b0 :: t)).1] ∧ st'.bldr = st'.grapheme ∧
+          st'.b.rd = st.b.rd.fill.consume (decodeRune (b0 :: t)).2 ∧ st'.w = wd st'.grapheme
+
+/-- What the statements after the loop must do: emit the grapheme with the width, re-measured with
+    `StringWidth` when it is 0; the reader as the loop left it. -/
+def PostOk (sw : List Rune → Nat) (post : List RStmt) : Prop :=
+  ∀ st : PR, postPhase sw post st = some (st.grapheme, (if st.w = 0 then sw st.grapheme else st.w), st.b.rd)
+
+/-- **A look-ahead loop whose body does `LoopPass` is `printLoop`**; and the width it leaves is the
     one `FirstGraphemeClusterInString` reported for the grapheme it leaves — or it has not changed
     anything (no iteration reached the cluster call). -/
-theorem whileBuffered_hand (cl : Nat) (wd : List Rune → Nat) (fuel : Nat) (st : PR)
-    (hacc : st.bldr = st.grapheme) (hlen : st.grapheme.length ≤ cl) :
-    ∃ st', whileBuffered cl wd handLoop fuel st = some st' ∧
+theorem whileBuffered_sem (cl : Nat) (wd : List Rune → Nat) (loop : List RStmt) (hl : LoopPass cl wd loop)
+    (fuel : Nat) (st : PR) (hacc : st.bldr = st.grapheme) (hlen : st.grapheme.length ≤ cl) :
+    ∃ st', whileBuffered cl wd loop fuel st = some st' ∧
       (st'.grapheme, st'.b.rd) = printLoop cl fuel st.b.rd st.grapheme ∧
       ((st'.w = st.w ∧ st'.grapheme = st.grapheme) ∨ st'.w = wd st'.grapheme) := by
   induction fuel generalizing st with
@@ -60,62 +80,59 @@ theorem whileBuffered_hand (cl : Nat) (wd : List Rune → Nat) (fuel : Nat) (st 
       cases hfb : st.b.rd.fill.buf with
       | nil => exact absurd hfb hne
       | cons b0 t =>
-        have hrb := readRuneB_cons st.b b0 t hfb
-        simp only [whileBuffered, he', Bool.false_eq_true, if_false, handLoop, loopBody, hrb, printLoop, hfb,
-          lookahead_flag, Bool.true_and]
-        by_cases hinv : (decide ((decodeRune (b0 :: t)).1 = runeError) && decide ((decodeRune (b0 :: t)).2 = 1)) = true
-        · simp only [hinv, if_true, unreadRuneB, Option.map_some]
-          exact ⟨_, rfl, rfl, Or.inl ⟨rfl, rfl⟩⟩
-        · simp only [hinv, Bool.false_eq_true, if_false, hacc, List.length_append, List.length_cons, List.length_nil]
-          by_cases hcl : cl < st.grapheme.length + 1
-          · have hcl' : st.grapheme.length + 1 > cl := hcl
-            have heq : cl = st.grapheme.length := by omega
-            have htake : (st.grapheme ++ [(decodeRune (b0 :: t)).1]).take cl = st.grapheme := by
-              rw [heq]; exact List.take_left' rfl
-            simp only [hcl, decide_true, if_true, unreadRuneB, Option.map_some, hcl', htake]
-            exact ⟨_, rfl, rfl, Or.inr rfl⟩
-          · have hcl' : ¬ (st.grapheme.length + 1 > cl) := hcl
-            have htake : (st.grapheme ++ [(decodeRune (b0 :: t)).1]).take cl = st.grapheme ++ [(decodeRune (b0 :: t)).1] := by
-              apply List.take_of_length_le; simp; omega
-            simp only [hcl, decide_false, Bool.false_eq_true, if_false, hcl', htake]
-            obtain ⟨st', i1, i2, i3⟩ := ih
-              { st with b := ⟨st.b.rd.fill.consume (decodeRune (b0 :: t)).2, some st.b.rd.fill⟩,
-                        next := (decodeRune (b0 :: t)).1, size := (decodeRune (b0 :: t)).2,
-                        bldr := st.grapheme ++ [(decodeRune (b0 :: t)).1],
-                        grapheme := st.grapheme ++ [(decodeRune (b0 :: t)).1], restNonEmpty := false,
-                        w := wd (st.grapheme ++ [(decodeRune (b0 :: t)).1]) }
-              rfl (by simp; omega)
-            refine ⟨st', i1, i2, Or.inr ?_⟩
+        obtain ⟨st1, brk, hp, hcase⟩ := hl st b0 t hfb hacc hlen
+        simp only [whileBuffered, he', Bool.false_eq_true, if_false, hp, printLoop, hfb, lookahead_flag, Bool.true_and]
+        by_cases hinv : (decodeRune (b0 :: t)).1 = runeError ∧ (decodeRune (b0 :: t)).2 = 1
+        · rw [if_pos hinv] at hcase
+          obtain ⟨rfl, h1, h2, h3⟩ := hcase
+          have hinv' : (decide ((decodeRune (b0 :: t)).1 = runeError) && decide ((decodeRune (b0 :: t)).2 = 1)) = true := by
+            simp [hinv.1, hinv.2]
+          simp only [hinv', if_true]
+          exact ⟨st1, rfl, by rw [h1, h2], Or.inl ⟨h3, h1⟩⟩
+        · rw [if_neg hinv] at hcase
+          have hinv' : (decide ((decodeRune (b0 :: t)).1 = runeError) && decide ((decodeRune (b0 :: t)).2 = 1)) = false := by
+            simpa using hinv
+          simp only [hinv', Bool.false_eq_true, if_false]
+          by_cases hcl : st.grapheme.length + 1 > cl
+          · rw [if_pos hcl] at hcase
+            obtain ⟨rfl, h1, h2, h3⟩ := hcase
+            simp only [hcl, if_true]
+            exact ⟨st1, rfl, by rw [h1, h2], Or.inr (by rw [h3, h1])⟩
+          · rw [if_neg hcl] at hcase
+            obtain ⟨rfl, h1, h2, h3, h4⟩ := hcase
+            simp only [hcl, if_false]
+            obtain ⟨st', i1, i2, i3⟩ := ih st1 h2 (by rw [h1]; simp; omega)
+            refine ⟨st', i1, by rw [i2, h3, h1], Or.inr ?_⟩
             rcases i3 with ⟨j1, j2⟩ | j
-            · rw [j1, j2]
+            · rw [j1, j2, h4]
             · exact j
 
-/-- **`print`, statement by statement**: the grapheme and the reader afterwards are the model's
-    `printLoop` (started with the builder `[r]`), and the width is
+/-- **`print`, from the semantics of its three parts**: the grapheme and the reader afterwards are
+    the model's `printLoop` (started with the builder `[r]`), and the width is
     `FirstGraphemeClusterInString`'s for that grapheme, re-measured with `StringWidth` when it is 0
     (also when the loop never ran). -/
-theorem interpPrint_hand (cl : Nat) (hcl : 1 ≤ cl) (wd sw : List Rune → Nat) (fuel : Nat) (r : Rune) (rd : Rd) :
-    ∃ w, interpPrint cl wd sw fuel r handPrint rd =
+theorem interpPrint_sem (body : List RStmt) (cl : Nat) (hcl : 1 ≤ cl) (wd sw : List Rune → Nat)
+    (hs : (splitWhile body).isNone = false) (hpre : PreOk (preOf body)) (hloop : LoopPass cl wd (loopOf body))
+    (hpost : PostOk sw (postOf body)) (fuel : Nat) (r : Rune) (rd : Rd) :
+    ∃ w, interpPrint cl wd sw fuel r body rd =
         some ((printLoop cl fuel rd [r]).1, w, (printLoop cl fuel rd [r]).2) ∧
       (w = sw (printLoop cl fuel rd [r]).1 ∨ (w = wd (printLoop cl fuel rd [r]).1 ∧ w ≠ 0)) := by
-  obtain ⟨st', h1, h2, h3⟩ := whileBuffered_hand cl wd fuel
-    { b := ⟨rd, none⟩, bldr := [r], grapheme := [r], restNonEmpty := false, w := 0 } rfl (by simpa using hcl)
+  obtain ⟨st1, p1, p2, p3, p4, p5⟩ := hpre r rd
+  obtain ⟨st', h1, h2, h3⟩ := whileBuffered_sem cl wd (loopOf body) hloop fuel st1 (by rw [p3, p4])
+    (by rw [p4]; simpa using hcl)
+  rw [p2, p4] at h2
   have hg : st'.grapheme = (printLoop cl fuel rd [r]).1 := by
     have := congrArg Prod.fst h2; simpa using this
   have hr : st'.b.rd = (printLoop cl fuel rd [r]).2 := by
     have := congrArg Prod.snd h2; simpa using this
-  simp only [interpPrint, handPrint, prePhase, splitEnd, List.reverse_cons, List.reverse_nil, List.nil_append,
-    List.cons_append]
-  have h1' : whileBuffered cl wd [.peekRuneSized, .ifInvalidUnreadBreak, .writeNext, .firstCluster, .ifRestUnreadBreak] fuel
-      { b := ⟨rd, none⟩, bldr := [r], grapheme := [r], restNonEmpty := false, w := 0 } = some st' := h1
-  simp only [h1', postPhase]
+  simp only [interpPrint, hs, Bool.false_eq_true, if_false, p1, h1, hpost st']
   by_cases hw : st'.w = 0
   · simp only [hw, if_true]
     exact ⟨sw st'.grapheme, by rw [hg, hr], Or.inl (by rw [hg])⟩
   · simp only [hw, if_false]
     refine ⟨st'.w, by rw [hg, hr], ?_⟩
     rcases h3 with ⟨j1, _⟩ | j
-    · exact absurd j1 hw
+    · exact absurd (j1.trans p5) hw
     · exact Or.inr ⟨by rw [j, hg], hw⟩
 
 /-! ### the run loop over interpreted bodies = the model's run loop -/
